@@ -13,6 +13,11 @@ CHECKS = {
    note=TRUST + "Python's builtin max() and operator dispatch are modelled from their documentation; vocabulary identity is a number per object.",
    technique="Lean 4 proof (core, case analysis + induction over the argument list) + exhaustive model/implementation correspondence",
    ref="6/C11"),
+ "C02": dict(
+   text="Lean 4 theorems over the shared algebra model (Alg.Hrr/Vtb/Tvtb.Impl, following bind/get_binding_matrix/get_inversion_matrix/invert/_get_sub_d/is_valid_dimensionality): for every commutative ring, every HRR dimensionality and every VTB/TVTB sub-dimensionality the modelled binding equals the published formula (convolution sum; block matrix, matrix forms s•(X·Yᵀ) and s•(X·Y)), is additive and homogeneous in each operand, HRR binding is commutative and associative, the binding matrix gives the direct operation for both swap_inputs values, the inversion matrix gives invert, unequal lengths are rejected, and exactly the positive squares are valid dimensionalities. Tied to the code by exact (ℚ, ℚ(√m)) execution of the same definitions on all basis pairs (d ≤ 16 quick / ≤ 36 thorough), structured and extreme-magnitude vectors, d up to 64, both swap values, all sidedness values, validity of every d in [-3, 4200] (thorough 2·10⁵).",
+   note=TRUST + "HrrAlgebra.bind goes through NumPy rfft/irfft: the model is the convolution sum (modelled, not path-faithful), compared at 1e-9 relative; NumPy dot/kron/sqrt and IEEE rounding trusted.",
+   technique="Lean 4 proof (Mathlib: circulant matrices, finite sums, ring) + exact-arithmetic model/implementation correspondence",
+   ref="6/C02"),
 }
 
 NOT_YET = "check not built yet in this round (model and correspondence pending); see DESIGN.md section 6"
@@ -62,7 +67,8 @@ def main():
         print("jsonschema not importable here; run with python3-vt to validate"); return
     jsonschema.validate(man, json.load(open("/root/.vp/MANIFEST.schema.json")))
     es = json.load(open("/root/.vp/EVIDENCE.schema.json"))
-    for f in sorted(glob.glob(os.path.join(HERE, "evidence", "*.json"))):
+    for pid in sorted(CHECKS):
+        f = os.path.join(HERE, "evidence", pid + ".json")
         jsonschema.validate(json.load(open(f)), es)
     print("MANIFEST ok:", len(checks), "checks;", len(man["not_applicable"]), "not_applicable; evidence files valid")
 
